@@ -264,7 +264,7 @@ def copyOp (dst src : String) (global : Bool) : BM String := do
   modify fun s => { s with sahReq := true, schReq := true }
   let h ← nextHelperVar
   let s ← get
-  varAssignment h (sliceLenString (varEvalString s (varName s0 dst global) true)) false
+  varAssignment h (sliceLenString src) false
   let s ← get
   pure (varEvalString s h false)
 
